@@ -102,6 +102,7 @@ struct GenCfg {
   int max_fuel = 40;
   bool fp = true, ld = true, calls = true, exts = true, allocas = true, indirect = true, overflow = true;
   bool jmpi = true;          // laddr + jmpi terminators
+  bool abs_mem = true;          // absolute-address memory forms (need the fixed-address buffer)
   bool const_branches = true;   // compare-and-branch / bt / bf with only immediate operands (folded by GVN)
   bool single_switch = true;    // switch with a single target
   bool narrow_sigs = true;   // narrow integer argument / result types on inner functions
@@ -191,7 +192,7 @@ struct ProgGen {
     if (type == MIR_T_LD) return Op::M (type, (int64_t) (192 + cs.range (0, 3) * 16), r_buf);
     int sz = type_size (type);
     int lim = store ? 192 : MM_BUF_SIZE;  // exclusive end of the allowed zone
-    int form = cs.weighted ({5, 3, 3, 2, 1});
+    int form = cs.weighted ({5, 3, 3, cfg.abs_mem ? 2 : 0, cfg.abs_mem ? 1 : 0});
     Op o;
     // allocas: only the initialised first 16 bytes, base+disp form
     if (!allocas.empty () && cs.chance (50) && sz <= 8) {
@@ -579,6 +580,7 @@ struct ProgGen {
       int i = (int) cs.range (0, 19);
       Op a = i < 10 ? int_src64 () : int_src32 (), b = i < 10 ? int_src64 (false) : int_src32 (false);
       if (!cfg.const_branches && a.k == Op::INT && b.k == Op::INT) a = Op::R (pick (w64));
+      if (!cfg.const_branches && a.k == Op::REG && b.k == Op::REG && a.reg == b.reg) b = Op::I (pick_int (cs));
       f->add (ops[i], {Op::L (some_label ()), a, b});
       f->add (MIR_JMP, {Op::L (cs.flip () ? next_label : some_label ())});
       break;
@@ -700,7 +702,10 @@ struct ProgGen {
     int nargs = (int) fn.args.size ();
     std::vector<int> int_args;
     for (int r : w64) if (r < nargs) int_args.push_back (r);
-    fn.add (MIR_MOV, {Op::R (r_fuel), Op::I ((int64_t) cs.range (1, cfg.max_fuel))});
+    if (cfg.const_branches)
+      fn.add (MIR_MOV, {Op::R (r_fuel), Op::I ((int64_t) cs.range (1, cfg.max_fuel))});
+    else  // a run-time value (depth is 0..2): the optimizer cannot fold the fuel checks into unreachable loops
+      fn.add (MIR_ADD, {Op::R (r_fuel), Op::R (r_depth), Op::I ((int64_t) cs.range (1, cfg.max_fuel))});
     fn.add (MIR_MOV, {Op::R (r_tmp), Op::I (0)});
     for (int r : w64)
       if (r >= nargs) {
